@@ -143,6 +143,11 @@ def _random(rnd):
         blocks.append(_c(f'c{base + 2}', 'typ', [{'t': rnd.choice(['blk', 'name']), 'x': base + 1}]))
         blocks.append(_c(f'c{base + 3}', 'id', [{'t': 'name', 'x': base + 1}]))
         blocks.append(_c(f'c{base + 4}', 'typ', [{'t': 'blk', 'x': rnd.choice([base + 3, fsrc])}]))
+    if rnd.random() < 0.25 and len(blocks) >= 3:
+        # a block whose name contains '_not_' (and starts with the name of another block): its
+        # '_not_NAME' shortcut must still mean the inverter of exactly that block
+        x, y = rnd.sample(range(len(blocks)), 2)
+        blocks[x]['name'] = f"{blocks[y]['name']}_not_{blocks[x]['name']}"
     order = list(range(1, len(blocks) + 1))
     if rnd.random() < .5:
         rnd.shuffle(order)
